@@ -16,6 +16,7 @@ head = '''# Seeded changes against the quick checks
 
 `Cnn-a`, `Cnn-b`: round 1 (sub-agent saw only the property text). `Cnn-h`: round 2 (additionally told to hide from small exhaustive scopes).
 `Cnn-r`: round 3 (told to hide from small AND large scopes: feature combinations, history, argument relations, values).
+`Cnn-t` / `C20-u`: round 5 (scale and length thresholds); `Cnn-u` / `C12-v` / `C20-v`: round 6 (call sequences, aliasing, left-over payload, errno).
 `Cnn-s`: round 4 (additionally told about the concretisation variants: truthy booleans, ownership flags, left-over keys, items in place).
 Each was confirmed with tools/seedconfirm.sh (applies, 22/22 tests pass, demo fails with / passes without) and run with tools/seedrun.sh.
 
@@ -23,4 +24,4 @@ Each was confirmed with tools/seedconfirm.sh (applies, 22/22 tests pass, demo fa
 |---|---|---|---|
 '''
 open(os.path.join(V, 'seeded', 'RESULTS.md'), 'w').write(head + '\n'.join(rows) + '\n')
-print('%d seeded changes, %d caught' % (len(rows), sum(1 for r in rows if '| CAUGHT |' in r)))
+print('%d seeded changes, %d caught, %d neutralised by a repair' % (len(rows), sum(1 for r in rows if '| CAUGHT |' in r), sum(1 for r in rows if '| NEUTRALISED |' in r)) + ', %d outside every property' % sum(1 for r in rows if '| OUT-OF-SCOPE |' in r))
